@@ -206,6 +206,14 @@ def rule_same_value(ctx: Ctx, rule: str = "C01.3") -> None:
               "the order reports")
     ctx.check(len(ups[0].args) == 2 and A.dotted(ups[0].args[1]) == "final_updates", rule, "the delta applied is final_updates", po,
               ups[0], "ok", "the account is updated with something other than final_updates")
+    # final_updates is fill + fees and nothing else: between its definition and the update it may only be pruned
+    touched = [s_ for s_ in A.stores(po, shallow=False) if (A.dotted(s_.target) == "final_updates" and s_.node is not fin[0].node
+                                                           and not (s_.kind == "mutcall" and isinstance(s_.node, ast.Call) and isinstance(s_.node.func, ast.Attribute)
+                                                                    and s_.node.func.attr == "prune"))
+               or (isinstance(s_.target, ast.Subscript) and A.dotted(s_.target.value) == "final_updates")]
+    ctx.check(not touched, rule, "the delta applied is exactly the fill plus the fees", po, touched[0].stmt if touched else fin[0].stmt,
+              "final_updates = fill + fees, only pruned", f"'{ast.unparse(touched[0].stmt)[:70] if touched else ''}' changes the delta after it was computed as "
+              "fill + fees: the account is charged something different from what the order records as its fill and fees", key_text="delta is fill + fees")
     # rounding precedes the sum; no mutation of the two maps between the sum and add_fill
     fn_n = g.nodes_for(fin[0].stmt)[0]
     af_n = g.nodes_for(af)[0]
